@@ -69,6 +69,9 @@ def split_block(
         block.module and block.ir and block.section
     ), "target block must be in a module"
 
+    if _verif.ENABLED:
+        _verif.emit("split_block_begin", cache=cache, block=block, offset=offset)
+
     end_split = offset == block.size
 
     new_block = block.__class__()
